@@ -29,7 +29,17 @@ def _mulf(a, b):
 _add = _uf(lambda a, b: a + b, 2)
 _sub = _uf(lambda a, b: a - b, 2)
 _mul = _uf(_mulf, 2)
-_div = _uf(lambda a, b: (Fraction(a) / Fraction(b) if not isinstance(a, (Sym, float)) and not isinstance(b, (Sym, float)) else a / b), 2)
+def _divf(a, b):
+    if not isinstance(b, Sym) and b == 0:
+        return float("nan")              # torch gives nan / inf (no exception); the value must then be discarded by the caller
+    if isinstance(a, float) and a != a:
+        return a
+    if not isinstance(a, (Sym, float)) and not isinstance(b, (Sym, float)):
+        return Fraction(a) / Fraction(b)
+    return a / b
+
+
+_div = _uf(_divf, 2)
 _fdiv = _uf(lambda a, b: a // b, 2)
 _mod = _uf(lambda a, b: a % b, 2)
 _neg = _uf(lambda a: -a, 1)
